@@ -747,6 +747,57 @@ def fixed_findings(ctx):
             ctx.fail(full, what, rec)
 
 
+
+# ---------------------------------------------------------------------------- history: the caller reuses its endpoint arrays
+def reuse_history(ctx):
+    """The caller passes ndarray endpoints, takes .solutions, then overwrites its own arrays in place (an event loop reusing a
+    vertex buffer) and only then reads the lazily evaluated path quantities.  Every quantity must still describe the ray
+    between the ORIGINAL endpoints (same oracle as the probes), and the tracer / paths must not share memory with the
+    caller's arrays."""
+    import pyrex.ray_tracing as rt
+    rng = ctx.rng
+    stats = {}
+    n = ctx.n(14, 120)
+    done = attempts = 0
+    while done < n and attempts < 6 * n:
+        attempts += 1
+        icep = pick_ice(rng)
+        tracer, dz = ("BasicRayTracer", rng.choice([1.0, 5.0])) if done % 4 == 3 else ("SpecializedRayTracer", 1.0)
+        kind = rng.choice(["shallow", "cross", "deep", "shallow"]) if tracer != "BasicRayTracer" else "shallow"
+        g = geometry(rng, icep, kind)
+        if g is None or g["rho"] is None:
+            continue
+        if tracer == "BasicRayTracer" and min(g["z_from"], g["z_to"]) < -700:
+            continue
+        done += 1
+        fp, tp = endpoints(g)
+        fa, ta = np.array(fp, dtype=float), np.array(tp, dtype=float)
+        ice = build_ice(icep)
+        cls = getattr(rt, tracer)
+        tr = cls(fa, ta, ice, dz=dz) if tracer == "BasicRayTracer" else cls(fa, ta, ice)
+        paths, err = solve(tr)
+        rec = {"kind": "reuse", "tracer": tracer, "dz": dz, "ice": icep, "g": g}
+        ctx.case(key=("reuse", tracer, dz, json.dumps(g, sort_keys=True)))
+        if not paths:
+            continue
+        shared = [nm for nm, arr in (("tracer.from_point", tr.from_point), ("tracer.to_point", tr.to_point),
+                                     ("path.from_point", paths[0].from_point), ("path.to_point", paths[0].to_point))
+                  if np.shares_memory(arr, fa) or np.shares_memory(arr, ta)]
+        # the caller now reuses its buffers for the next event
+        fa[:] = [fp[0] + rng.uniform(-300, 300), fp[1] + rng.uniform(-300, 300), rng.uniform(max(icep["lo"] + 5, -600.0), icep["hi"] - 1)]
+        ta[:] = [tp[0] + rng.uniform(-300, 300), tp[1] + rng.uniform(-300, 300), rng.uniform(max(icep["lo"] + 5, -600.0), icep["hi"] - 1)]
+        key_tail = "%s:%s:%r:%r:%r" % (tracer, icep["cls"], g["z_from"], g["z_to"], g["rho"])
+        if shared:
+            ctx.fail("shares-caller-array:" + key_tail, "%s keeps a view of the caller's endpoint array (%s): overwriting the caller's array changes the tracer "
+                     "(from_point is now %r, constructed with %r)" % (tracer, ", ".join(shared), list(map(float, tr.from_point)), list(fp)), rec)
+        if not (np.array_equal(np.asarray(tr.from_point, dtype=float), np.array(fp)) and np.array_equal(np.asarray(tr.to_point, dtype=float), np.array(tp))):
+            ctx.fail("endpoints-changed:" + key_tail, "after the caller overwrote its own arrays tracer.from_point/to_point are %r / %r, constructed with %r / %r" % (
+                list(map(float, tr.from_point)), list(map(float, tr.to_point)), list(fp), list(tp)), rec)
+        for key, what in judge(ctx, tracer, dz, icep, g, paths, tr, stats):
+            full = key if key in (K_BETA_TOL, K_LINK, K_LOG1) else "reuse:%s:%s" % (key, key_tail)
+            ctx.fail(full, "[path quantities read after the caller overwrote its endpoint arrays] " + what, rec)
+    ctx.extra["reuse_history"] = {"histories": done, "max_excess": stats.get("max_excess")}
+
 # ---------------------------------------------------------------------------- entry points
 def run(ctx):
     ctx.rule = ("formula correspondence: (ice parameters, depth, beta, deep flag) tuples incl. beta at / around beta_tolerance, next to and beyond the "
@@ -778,6 +829,7 @@ def run(ctx):
     except Exception as e:
         ctx.oblige("gen:Gen_ray", False, "translation failed (fail-closed): %s" % e)
         fixed_findings(ctx)
+        reuse_history(ctx)
         probes_and_e2e(ctx, do_model=False, escalate=2)
         return
     ok = ctx.coq_build("C01")
@@ -787,6 +839,7 @@ def run(ctx):
         ctx.oblige("corr:formulas", False, repr(e)[-1500:])
         ok = False
     fixed_findings(ctx)
+    reuse_history(ctx)
     try:
         probes_and_e2e(ctx, do_model=True, escalate=1 if ok else 2)
     except RuntimeError as e:
@@ -796,6 +849,26 @@ def run(ctx):
 
 def replay(ctx, obj):
     print(json.dumps(obj, indent=1, default=str))
+    if obj.get("kind") == "reuse":
+        import pyrex.ray_tracing as rt
+        icep, g = obj["ice"], obj["g"]
+        fp, tp = endpoints(g)
+        fa, ta = np.array(fp, dtype=float), np.array(tp, dtype=float)
+        cls = getattr(rt, obj["tracer"])
+        tr = cls(fa, ta, build_ice(icep), dz=obj["dz"]) if obj["tracer"] == "BasicRayTracer" else cls(fa, ta, build_ice(icep))
+        paths, err = solve(tr)
+        print("implementation: %s; shares memory with the caller's arrays: %s" % (
+            "exception " + err if paths is None else "%d solutions" % len(paths), np.shares_memory(tr.from_point, fa) or np.shares_memory(tr.to_point, ta)))
+        fa[:] = [fp[0] + 100.0, fp[1] - 50.0, min(fp[2] * 0.5, icep["hi"] - 1)]
+        ta[:] = [tp[0] - 70.0, tp[1] + 30.0, min(tp[2] * 0.5, icep["hi"] - 1)]
+        print("caller overwrote its arrays; tracer.from_point=%r to_point=%r (constructed with %r, %r)" % (list(map(float, tr.from_point)), list(map(float, tr.to_point)), fp, tp))
+        stats = {}
+        fails = judge(ctx, obj["tracer"], obj["dz"], icep, g, paths or [], tr, stats)
+        for p in paths or []:
+            print(" solution direct=%s theta0=%r path_length=%r tof=%r received=%r" % (p.direct, float(p.theta0), float(p.path_length), float(p.tof), list(map(float, p.received_direction))))
+        for k, w in fails:
+            print(" FAIL", k, w)
+        return 1 if fails else 0
     if obj.get("kind") != "geometry":
         print("(no concrete geometry recorded: the replay file names the broken theorem / correspondence)")
         return 1
